@@ -10,7 +10,8 @@ import (
 )
 
 // c11.resphead: resp.ReadHeader on the bytes of a response head against Model/RespHead.v: protocol version,
-// status code, framing decision (content length / -1 chunked / -2 until close) and the bytes consumed.
+// status code, framing decision (content length / -1 chunked / -2 until close), the bytes consumed and the
+// connection-persistence decision (ConnectionClose: Connection field, keep-alive list, HTTP/1.0, until-close framing).
 func init() {
 	register(&Unit{Name: "c11.resphead", Props: []string{"C11", "C04"},
 		Check: func(t *T, in In) []Finding {
@@ -21,13 +22,22 @@ func init() {
 			if len(in) > 1 && in.N(1) == 1 {
 				h.DisableNormalizing() // names kept as sent; framing is decided case-insensitively either way
 			}
+			noNorm := len(in) > 1 && in.N(1) == 1
 			err := resp.ReadHeader(&h, conn)
 			impl := "ERR"
+			b01 := map[bool]string{true: "1", false: "0"}
 			if err == nil {
-				impl = fmt.Sprintf("OK %s %d %d %d", map[bool]string{true: "1", false: "0"}[h.IsHTTP11()], h.StatusCode(), h.ContentLength(), len(buf)-conn.Len())
+				impl = fmt.Sprintf("OK %s %d %d %d", b01[h.IsHTTP11()], h.StatusCode(), h.ContentLength(), len(buf)-conn.Len())
+				if !noNorm {
+					// connection persistence (ResponseHeader.ConnectionClose) is modelled for canonical stored names
+					impl += " " + b01[h.ConnectionClose()]
+				}
 			}
 			full := t.M.Call("resp_head", buf)
 			mod := full
+			if noNorm && strings.HasPrefix(mod, "OK ") {
+				mod = mod[:strings.LastIndexByte(mod, ' ')]
+			}
 			if strings.HasPrefix(mod, "MORE") || strings.HasPrefix(mod, "BAD") {
 				t.Count("model/" + strings.ReplaceAll(mod, " ", "-"))
 				mod = "ERR"
@@ -44,9 +54,37 @@ func init() {
 			codes := []string{"200", "204", "304", "100", "404", "99", "0", "1000", "20x", "", "200OK", "9223372036854775808", "-1"}
 			texts := []string{" OK", "", " Not Found", " a b c", "  ", " \t"}
 			names := []string{"Content-Length", "content-length", "CONTENT-LENGTH", "Transfer-Encoding", "transfer-encoding", "X-A", "Connection", "Content-Type", "Server", "Set-Cookie", "", "A b"}
-			values := []string{"5", "0", "12x", "", "chunked", "identity", "gzip, chunked", "close", "keep-alive", "9223372036854775808", "a=b; Path=/", "X-T", "7 "}
+			values := []string{"5", "0", "12x", "", "chunked", "identity", "gzip, chunked", "close", "keep-alive", "Keep-Alive, x", "x ,keep-alive", "9223372036854775808", "a=b; Path=/", "X-T", "7 "}
 			eols := []string{"\r\n", "\r\n", "\r\n", "\n"}
 			alpha := []byte("a: \t\r\n-5H/1.")
+			// directed: the connection-persistence decision over version x status x framing x 0-2 Connection fields
+			connVals := []string{"close", "keep-alive", "Keep-Alive", "Close", "x, keep-alive", " keep-alive ,y", "close, keep-alive", "upgrade", "", "keep-alivex", ",", "a,,KEEP-ALIVE"}
+			connNames := []string{"Connection", "connection", "CONNECTION"}
+			for _, pr := range []string{"HTTP/1.1", "HTTP/1.0"} {
+				for _, code := range []string{"200", "204", "304", "100", "404"} {
+					for _, fr := range []string{"", "Content-Length: 5\r\n", "Transfer-Encoding: chunked\r\n", "Content-Length: x\r\n"} {
+						for i := -1; i < len(connVals); i++ {
+							for j := -1; j < len(connVals); j++ {
+								if i < 0 && j >= 0 {
+									continue
+								}
+								hd := pr + " " + code + " T\r\n" + fr
+								if i >= 0 {
+									hd += connNames[(i+j+1)%3] + ": " + connVals[i] + "\r\n"
+								}
+								if j >= 0 {
+									hd += connNames[(i*j+2)%3] + ": " + connVals[j] + "\r\n"
+								}
+								hd += "\r\n"
+								t.Do(In{H([]byte(hd))}, true)
+								if (i+j)%5 == 0 {
+									t.Do(In{H([]byte(hd)), Nn(1)}, true)
+								}
+							}
+						}
+					}
+				}
+			}
 			for i := 0; i < t.Scale(6000, 150000); i++ {
 				var sb strings.Builder
 				for t.R.Intn(10) == 0 {
